@@ -103,7 +103,11 @@ impl Sut for GC {
     fn new() -> Self {
         GCounter::new()
     }
-    fn random_cmd(rng: &mut Rng, _sh: &Shadow) -> Cmd {
+    fn random_cmd(rng: &mut Rng, sh: &Shadow) -> Cmd {
+        if sh.equal_vals {
+            // "huge" configuration: every actor's total approaches the top of the u64 range
+            return Cmd::new("inc_many", vec![(1u64 << 62) + rng.below(1000) as u64]);
+        }
         if rng.chance(1, 2) {
             Cmd::new("inc", vec![])
         } else {
@@ -157,7 +161,10 @@ impl Sut for PN {
     fn new() -> Self {
         PNCounter::new()
     }
-    fn random_cmd(rng: &mut Rng, _sh: &Shadow) -> Cmd {
+    fn random_cmd(rng: &mut Rng, sh: &Shadow) -> Cmd {
+        if sh.equal_vals {
+            return Cmd::new(if rng.chance(2, 3) { "inc_many" } else { "dec_many" }, vec![(1u64 << 62) + rng.below(1000) as u64]);
+        }
         match rng.below(4) {
             0 => Cmd::new("inc", vec![]),
             1 => Cmd::new("dec", vec![]),
